@@ -270,9 +270,10 @@ fn encframe(f: &Fields) -> String {
             Err(e) => format!("dec=ERR:{}", errclass(&e)),
         }
     };
-    // `fixedpick`: the model prints whether a mono FIXED subframe has the order and residuals its `fixedPick` computes; the
+    // `fixedpick`, `wastedpick`: the model prints whether the wasted bits of every independently coded channel are those its regenerated fold
+    // determines, and whether a mono FIXED subframe has the order and residuals its `fixedPick` computes; the
     // implementation's side of that comparison is the frame itself, so the harness states the expected value
-    format!("ok bytes={} {} fixedpick=ok", hex(&out[start..]), dec)
+    format!("ok bytes={} {} fixedpick=ok wastedpick=ok", hex(&out[start..]), dec)
 }
 
 /// facts about a finished file read back through the crate's own metadata reader and frame walker
